@@ -113,6 +113,14 @@ def gen() -> None:
     for owner, fn in (("http", px.find_def(http, "dump_cookie")), ("http", px.find_def(http, "parse_cookie")),
                       ("sansio.http", px.find_def(sans, "parse_cookie")), ("sansio.http", px.find_def(sans, "_cookie_unslash_replace")),
                       ("test.Cookie", px.find_method(ck, "_from_response_header")), ("test.Cookie", px.find_method(ck, "_to_request_header")),
+                      ("test.Cookie", px.find_method(ck, "_matches_request")), ("test.Cookie", px.find_method(ck, "_storage_key")),
+                      ("test.Cookie", px.find_method(ck, "_should_delete")),
+                      ("test.Client", px.find_method(px.find_class(tst, "Client"), "_add_cookies_to_wsgi")),
+                      ("test.Client", px.find_method(px.find_class(tst, "Client"), "_update_cookies_from_response")),
+                      ("test.Client", px.find_method(px.find_class(tst, "Client"), "run_wsgi_app")),
+                      ("test.Client", px.find_method(px.find_class(tst, "Client"), "set_cookie")),
+                      ("test.Client", px.find_method(px.find_class(tst, "Client"), "get_cookie")),
+                      ("test.Client", px.find_method(px.find_class(tst, "Client"), "delete_cookie")),
                       ("sansio.response.Response", px.find_method(px.find_class(px.load("sansio/response.py"), "Response"), "set_cookie")),
                       ("sansio.response.Response", px.find_method(px.find_class(px.load("sansio/response.py"), "Response"), "delete_cookie"))):
         sk.append(f"## {owner}.{fn.name}\n" + px.skeleton(fn))
@@ -484,6 +492,81 @@ def run(chk: Check) -> None:
         chk.case(("jar", k, v), nontrivial=True)
     chk.count("jar", n_jar)
 
+    # which cookies the jar sends: the model of Cookie._matches_request (coq/C13/JarMatchModel.v) against the method, and the
+    # RFC 6265 path-match / domain-match oracle end to end through Client (set with Path / Domain, request another path / host)
+    from werkzeug.test import Cookie as _Ck
+    segs = ["", "/", "/s", "/s/", "/s/c", "/sx", "/s/c/", "/a/b", "/a/b/", "/a/bc", "/é", "/é/", "/é/x", "//", "/s//c"]
+    hosts = ["localhost", "a.b", "x.a.b", "xa.b", "b", ".a.b", "a.b.", "y.x.a.b", "A.b"]
+
+    def rfc_path(cp, rp):
+        return rp == cp or (rp.startswith(cp) and (cp.endswith("/") or rp[len(cp):].startswith("/")))
+
+    def rfc_domain(oo, dom, srv):
+        return srv == dom or (not oo and srv.endswith("." + dom))
+    nm = 0
+    for cp in segs:
+        for rp in segs:
+            for (oo, dom, srv) in [(True, "localhost", "localhost")] + ([(rng.random() < 0.5, rng.choice(hosts), rng.choice(hosts))] if cp and rp else []):
+                if not cp or not dom:
+                    continue            # the jar never stores an empty path or domain
+                c = _Ck(key="k", value="v", decoded_key="k", decoded_value="v", expires=None, max_age=None, domain=dom,
+                        origin_only=oo, path=cp, secure=False, http_only=False, same_site=None)
+                try:
+                    got = "1" if c._matches_request(srv, rp) else "0"
+                except Exception as e:  # noqa: BLE001
+                    got = "exn:" + type(e).__name__
+                lines.append(f"jmatch {int(oo)} {cps(dom)} {cps(cp)} {cps(srv)} {cps(rp)}")
+                impl_out.append(got)
+                want = rfc_path(cp, rp) and rfc_domain(oo, dom, srv)
+                if got != ("1" if want else "0"):
+                    chk.fail("jar-match", f"cookie path {cp!r} domain {dom!r} (origin_only={oo}) vs request {srv!r}{rp!r}: sent={got}, RFC 6265 says {want}",
+                             {"cookie_path": cp, "request_path": rp, "domain": dom, "server": srv, "origin_only": oo})
+                nm += 1
+    chk.count("jar-match-cases", nm)
+    # end to end: Set-Cookie with a Path through a response; the next requests carry it exactly where RFC 6265 says
+    for cp in ["/", "/s", "/s/", "/a/b/", "/é/"]:
+        @Request.application
+        def app2(request, cp=cp):
+            if request.path == "/__set":
+                r = Response("ok")
+                r.set_cookie("k", "v", path=cp)
+                return r
+            return Response(request.cookies.get("k", "-"))
+        c = Client(app2)
+        c.get("/__set")
+        for rp in ["/", "/s", "/s/", "/s/c", "/sx", "/a/b", "/a/b/", "/a/b/c", "/a/bc", "/é/", "/é/x", "/é"]:
+            try:
+                got = c.get(quote(rp, safe="/")).get_data(as_text=True)
+            except Exception as e:  # noqa: BLE001
+                got = "exn:" + type(e).__name__
+            want = "v" if rfc_path(cp, rp) else "-"
+            if got != want:
+                chk.fail("client-jar-path", f"cookie set with Path={cp!r}: request {rp!r} carried {got!r}, expected {want!r}",
+                         {"cookie_path": cp, "request_path": rp})
+            chk.case(("jar-e2e", cp, rp), True)
+    # ... and with a Domain (IDNA-encoded by dump_cookie) on internationalised host names
+    for dom, setter, asks in [("bücher.example", "bücher.example", [("bücher.example", "vw"), ("sub.bücher.example", "v-"), ("xbücher.example", "--"), ("example", "--")]),
+                              ("a.b", "x.a.b", [("x.a.b", "vw"), ("a.b", "v-"), ("y.a.b", "v-"), ("xa.b", "--")])]:
+        @Request.application
+        def app3(request, dom=dom):
+            if request.path == "/__set":
+                r = Response("ok")
+                r.set_cookie("k", "v", domain=dom)
+                r.set_cookie("d", "w")
+                return r
+            return Response(request.cookies.get("k", "-") + request.cookies.get("d", "-"))
+        c = Client(app3)
+        c.get("/__set", base_url=f"http://{setter}/")
+        for host, want in asks:
+            try:
+                got = c.get("/", base_url=f"http://{host}/").get_data(as_text=True)
+            except Exception as e:  # noqa: BLE001
+                got = "exn:" + type(e).__name__
+            if got != want:
+                chk.fail("client-jar-domain", f"cookies set by {setter!r} with Domain={dom!r} / host-only: request to {host!r} carried {got!r}, expected {want!r}",
+                         {"domain": dom, "set_on": setter, "request_host": host})
+            chk.case(("jar-e2e-domain", dom, host), True)
+
     # the jar model (coq/C13/Jar.v) against test.Cookie on dumped and hostile Set-Cookie headers
     from werkzeug.test import Cookie as _TestCookie
     jar_hdrs = []
@@ -539,7 +622,7 @@ def main(chk: Check) -> None:
     except px.Unsupported as e:
         chk.broken("translator", "C13/Gen.v", str(e))
     chk.forbidden_scan()
-    if chk.coq_make(["C13/Proofs.vo", "C13/Extract.vo"]):
+    if chk.coq_make(["C13/Proofs.vo", "C13/JarMatch.vo", "C13/Extract.vo"]):
         chk.audit_props("C13/Props.v")
     else:
         chk.cov["obligations"] += 1
